@@ -511,6 +511,9 @@ func c17PeerInbound(c *Ctx, e *s1Endpoint, tag string) {
 	add(bs2[1], "multi-2")
 	script = append(script, step{bs2[2], 1, "bad-checksum"})
 	script = append(script, step{bs2[2], 2, "bad-length"})
+	// length bytes OUTSIDE 10..254: refused on the length byte alone, answered NAK after the line went quiet, and —
+	// like every corrupt block — never a reason to take the link down (after seeded change C17c-2)
+	script = append(script, step{bs2[2], 3, "length-byte-9"}, step{bs2[2], 4, "length-byte-255"}, step{bs2[2], 5, "length-byte-5"}, step{bs2[2], 6, "length-byte-0"})
 	add(bs2[2], "multi-3")
 	add(bs2[2], "duplicate-of-last")
 	// 3. out of sequence: block 1, then block 3 -> whole message dropped; stray block 2 alone
@@ -547,6 +550,14 @@ func c17PeerInbound(c *Ctx, e *s1Endpoint, tag string) {
 			w[len(w)-1] ^= 0x40
 		case 2:
 			w[0]--
+		case 3:
+			w[0] = 9
+		case 4:
+			w[0] = 255
+		case 5:
+			w[0] = 5
+		case 6:
+			w[0] = 0
 		}
 		ans := e.peer.sendWire(w)
 		c.Count(fmt.Sprintf("peer-in|%s|%d|%s", tag, i, s.what), true)
